@@ -3,6 +3,7 @@ CONSTANTS
   Machine = "log"
   CrashPoints = FALSE
   RollFaults = TRUE
+  RollKills = FALSE
   MaxCount = 3
   Limit = 4
   MaxWrite = 6
